@@ -146,7 +146,7 @@ theorem msort_stable (hc : CmpPreorder cmp) : ∀ (fuel : Nat) (xs c : List Nat)
 open CC Chain in
 /-- `cc_list_sort_in_place` on a canonical state: no allocation, bookkeeping right afterwards -/
 theorem sortInPlace_ofList (xs : List Nat) :
-    sortInPlace cmp (ofList xs) = ofList (msort cmp xs.length xs) := by
+    sortInPlace cmp (ofList t xs) = ofList t (msort cmp xs.length xs) := by
   unfold sortInPlace
   by_cases h : xs.length < 2
   · simp only [ofList_size, h, if_true]; rw [msort_short _ _ h]
